@@ -36,9 +36,9 @@ from pgverif.monitors import genoref as G
 NS = importlib.import_module('pyglove.ext.evolution.nsga2')
 
 TIERS = {
-    'quick': dict(shards=8, cases=20, apps=14, kpoint_extra=3, max_pop=8,
+    'quick': dict(shards=8, cases=18, apps=14, kpoint_extra=3, max_pop=8,
                   algos=0.2, timeout_s=900, case_timeout_s=600),
-    'thorough': dict(shards=16, cases=230, apps=20, kpoint_extra=3, max_pop=12,
+    'thorough': dict(shards=16, cases=200, apps=20, kpoint_extra=3, max_pop=12,
                      algos=0.3, timeout_s=5400, case_timeout_s=900),
 }
 RULE = ('case = one random search space (gen/spaces.random_space with floats, '
